@@ -188,6 +188,14 @@ func main() {
 	for _, l := range lists {
 		emit("hashes", l, "1000", 10, 5, 9)
 	}
+	// the same hash more than once (same spelling, other case), order and multiplicity kept
+	{
+		a, b := g(), g()
+		up, lo := strings.ToUpper(a), strings.ToLower(a)
+		for _, l := range [][]string{{a, a}, {b, a, b}, {lo, up, b}, {up, lo}, {a, b, a, b, a}, {b, b, b}} {
+			emit("hashes-duplicates", l, "1000", 10, 5, 9)
+		}
+	}
 	nums := []int64{1, 2, 1<<63 - 1, 0, -1, -2, -1 << 63, 1 << 62}
 	for _, b := range nums {
 		for _, s := range nums {
@@ -209,6 +217,9 @@ func main() {
 				h = string(bb)
 			}
 			l = append(l, h)
+		}
+		if n > 1 && rng.Chance(15) { // a repeated entry
+			l[rng.Intn(n)] = l[rng.Intn(n)]
 		}
 		a := amounts[rng.Intn(8)]
 		if rng.Chance(60) {
